@@ -175,4 +175,28 @@ PLANS = {
                 'the abstract document of every input is derived from the bytes with encoding/json (json.Valid + token stream)',
         'assumptions': COMMON_ASSUMPTIONS + ['the abstract JSON document and well-formedness of an input are derived by the harness with encoding/json (json.Valid, Decoder tokens), as the property prescribes'],
     },
+    'C16': {
+        'mc': [{'module': 'MC_C16', 'what': 'Go slice model: an append-only writer satisfies the frame condition for every prefix/spare capacity/output (<= 3 each); a whole-buffer post-processing writer (negative control) breaks it'}],
+        'drivers': [{'name': 'c16', 'shards': 8}],
+        'codes': ['C16.'],
+        'rule': 'fmt.append: for each of the 5 DefaultFormatter functions, prefixes drawn from every byte value (alone and around a formatter letter), prefixes made of the symbols the formatter emits, '
+                'spare capacity 0..64, every flag subset, boundary values; the bytes on a nil buffer are logged in the same event; plus ID.URN in uu.fmt events of C05',
+        'assumptions': COMMON_ASSUMPTIONS,
+    },
+    'C17': {
+        'drivers': [{'name': 'c17', 'shards': 8}],
+        'mc': [{'module': 'MC_C17', 'what': 'generic receiver machine: 3 parsable / 3 unparsable inputs, histories to depth 5: a failing call never changes the receiver, scribbling the input never changes earlier results'}],
+        'codes': ['C17.'],
+        'rule': 'recv.call: seeded histories (12 steps) of UnmarshalText/JSON/Binary/Scan per type with valid, near-valid and over-long inputs, receiver logged before/after, input snapshot and scribble; '
+                'twin: every parser entry point on string, []byte, named string, named []byte with equal values and equal error messages',
+        'assumptions': COMMON_ASSUMPTIONS,
+    },
+    'C18': {
+        'drivers': [{'name': 'c18', 'shards': 8, 'per': 8000}],
+        'mc': [{'module': 'MC_C18', 'what': 'limit gate shared by the five parsers: maxLen x input length grid'}],
+        'codes': ['C18.'],
+        'rule': 'every parsing / validating / comparing entry point of the five packages on seeded random bytes, fragment soups (invalid UTF-8, multi-byte runes, NUL, BOM), long runs and mutated valid texts, '
+                'under all rule subsets; limit matrix MaxInputLength in {0,1,default,default+1} x lengths {0,1,limit-1,limit,limit+1,limit+2,10x}; demands: no panic, too-long <=> over the limit, message does not echo the input',
+        'assumptions': COMMON_ASSUMPTIONS + ['coverage-guided native fuzzing is not part of this technique: inputs are seeded and structured; allocation is not measured'],
+    },
 }
